@@ -8,7 +8,7 @@ use std::path::PathBuf;
 use std::time::Duration;
 use tokio::fs::File;
 use tokio::{
-    io::{AsyncRead, AsyncReadExt, AsyncSeek, AsyncSeekExt, AsyncWrite},
+    io::{AsyncRead, AsyncReadExt, AsyncSeek, AsyncSeekExt, AsyncWrite, AsyncWriteExt},
     task::spawn_blocking,
 };
 use url::Url;
@@ -308,6 +308,11 @@ where
             ))?;
 
     let mut output_file = output.into_inner();
+    // Writes are carried out in the background: wait for the last one and fail if it failed.
+    output_file
+        .flush()
+        .await
+        .context(format!("Failed to write to {}", opts.output.display()))?;
     if !output_is_block_dev {
         // Resize output file to same size as the archive source
         output_file
